@@ -28,11 +28,11 @@ func u32s(names ...string) []specField {
 
 // sFlow v5 structures (sflow_version_5.txt), keyed by the Go struct that becomes the JSON object.
 var sflowSpecs = map[string][]specField{
-	"FlowSample":       {{"SequenceNo", 4}, {"SourceID", 1}, {"skip", 3}, {"SamplingRate", 4}, {"SamplePool", 4}, {"Drops", 4}, {"Input", 4}, {"Output", 4}, {"RecordsNo", 4}},
-	"SampledHeader":    {{"Protocol", 4}, {"FrameLength", 4}, {"Stripped", 4}, {"HeaderLength", 4}, {"Header", -1}},
-	"ExtSwitchData":    u32s("SrcVlan", "SrcPriority", "DstVlan", "DstPriority"),
-	"ExtRouterData":    {{"buf:buff", -1}, {"SrcMask", 4}, {"DstMask", 4}},
-	"CounterSample":    {{"SequenceNo", 4}, {"SourceIDType", 1}, {"buf:buf", 3}, {"RecordsNo", 4}},
+	"FlowSample":    {{"SequenceNo", 4}, {"SourceID", 1}, {"skip", 3}, {"SamplingRate", 4}, {"SamplePool", 4}, {"Drops", 4}, {"Input", 4}, {"Output", 4}, {"RecordsNo", 4}},
+	"SampledHeader": {{"Protocol", 4}, {"FrameLength", 4}, {"Stripped", 4}, {"HeaderLength", 4}, {"Header", -1}},
+	"ExtSwitchData": u32s("SrcVlan", "SrcPriority", "DstVlan", "DstPriority"),
+	"ExtRouterData": {{"buf:buff", -1}, {"SrcMask", 4}, {"DstMask", 4}},
+	"CounterSample": {{"SequenceNo", 4}, {"SourceIDType", 1}, {"buf:buf", 3}, {"RecordsNo", 4}},
 	"GenericInterfaceCounters": u32s("Index", "Type", "Speed:8", "Direction", "Status", "InOctets:8", "InUnicastPackets", "InMulticastPackets", "InBroadcastPackets", "InDiscards", "InErrors", "InUnknownProtocols",
 		"OutOctets:8", "OutUnicastPackets", "OutMulticastPackets", "OutBroadcastPackets", "OutDiscards", "OutErrors", "PromiscuousMode"),
 	"EthernetInterfaceCounters": u32s("AlignmentErrors", "FCSErrors", "SingleCollisionFrames", "MultipleCollisionFrames", "SQETestErrors", "DeferredTransmissions", "LateCollisions", "ExcessiveCollisions",
@@ -676,6 +676,32 @@ func checkRecordDispatch(prog *core.Program, r4 *core.RuleRun, fname string, wan
 		return
 	}
 	got := map[int64][2]string{}
+	partial := ""
+	nTag := 0
+	wholeWord := func(v ssa.Value) bool {
+		ld, ok := v.(*ssa.UnOp)
+		if !ok || ld.Op != token.MUL {
+			return false
+		}
+		a, ok := ld.X.(*ssa.Alloc)
+		if !ok {
+			return false
+		}
+		if b, ok := a.Type().Underlying().(*types.Pointer).Elem().Underlying().(*types.Basic); !ok || b.Kind() != types.Uint32 {
+			return false
+		}
+		// the variable is filled by a read from the datagram in this function
+		for _, ref := range referrers(a) {
+			if mi, ok := ref.(*ssa.MakeInterface); ok {
+				for _, r2 := range referrers(mi) {
+					if c, ok := r2.(*ssa.Call); ok && len(c.Common().Args) >= 2 && c.Common().Args[len(c.Common().Args)-1] == ssa.Value(mi) {
+						return true
+					}
+				}
+			}
+		}
+		return false
+	}
 	allInstrs(fn, func(ins ssa.Instruction) {
 		mu, ok := ins.(*ssa.MapUpdate)
 		if !ok {
@@ -705,6 +731,10 @@ func checkRecordDispatch(prog *core.Program, r4 *core.RuleRun, fname string, wan
 						if c, ok := ssaConstInt(be.Y); ok {
 							if _, dup := got[c]; !dup {
 								got[c] = [2]string{key, typ}
+								nTag++
+								if !wholeWord(be.X) && partial == "" {
+									partial = printExpr(fn, be.X, 0)
+								}
 							}
 						}
 					}
@@ -715,6 +745,10 @@ func checkRecordDispatch(prog *core.Program, r4 *core.RuleRun, fname string, wan
 			}
 		}
 	})
+	if nTag > 0 {
+		r4.Check(partial == "", "sflow."+fname+":dispatch-on-whole-type-word", fn.Pos(), "records are dispatched on the whole 32-bit type word (enterprise and format) read for this record",
+			"records are dispatched on "+partial+" rather than on the whole type word read from the datagram: the type word carries an enterprise number in its upper 20 bits, and an enterprise-specific record whose low bits equal a standard format number is decoded with the standard layout instead of being skipped by its length")
+	}
 	var ks []int64
 	for k := range want {
 		ks = append(ks, k)
